@@ -393,8 +393,8 @@ func c05CLI(t *mon.T, d c05Desc, dir string) {
 func genC05(g *mon.G) {
 	r := gen.Rand(g.Seed)
 	apis := []string{"blockstore", "blockstore-many", "storage-writable", "storage-rw", "deferred"}
-	dpads := []uint64{0, 0, 1, 7, 1413}
-	ipads := []uint64{0, 0, 1, 1024}
+	dpads := []uint64{0, 0, 1, 7, 1413, 4096, 4097, 8141, 12289}
+	ipads := []uint64{0, 0, 1, 1024, 4097, 10000}
 	for i := 0; i < g.Pick(1200, 20000); i++ {
 		cfg := lab.Cfg{V1: r.Intn(4) == 0, Sorted: r.Intn(2) == 0, StoreID: r.Intn(2) == 0, WholeCID: r.Intn(3) == 0, AllowDup: r.Intn(4) == 0}
 		if !cfg.V1 {
